@@ -98,6 +98,25 @@ def run(F, ctx):
                         exit_on_change = True
                     if srcs & cyc_d:
                         exit_on_cycle = True
+                    # control dependence: the exit flag is assigned under a branch on the tested value
+                    # (`again = mutual && changed;  while again { .. }`)
+                    assign_bbs = [j for j in sorted(loops) for st in f.stmts(j) if st["d"]["l"] in srcs and not proj(st["d"])]
+                    for j in sorted(loops):
+                        tj = f.term(j)
+                        if tj.get("k") != "switch":
+                            continue
+                        dj = op_local(tj.get("on"))
+                        sj = (common.origins(f, dj) | {dj}) if dj is not None else set()
+                        if not (sj & (chg_d | cyc_d)):
+                            continue
+                        sc = f.succ(j)
+                        for b_ in assign_bbs:
+                            dom = [x for x in sc if f.dominates(x, b_)]
+                            if dom and len(dom) < len(set(sc)):
+                                if sj & chg_d:
+                                    exit_on_change = True
+                                if sj & cyc_d:
+                                    exit_on_cycle = True
         ok = repeatable and exit_on_change and exit_on_cycle
         ctx.site("%s: the pass over the heads is repeated until nothing changes when heads are mutually recursive" % f.name, f.where(inner[0].bb), ok=ok,
                  repeatable=repeatable, exit_depends_on_change_test=exit_on_change, exit_depends_on_cyclicity_test=exit_on_cycle, cyclicity_fns=sorted(dep_fns)[:3])
